@@ -66,7 +66,7 @@ fn gen_case(rng: &mut Rng, big_ok: bool) -> Vec<String> {
                 let mode = match rng.below(100) {
                     0..=44 => "ow".to_string(),
                     45..=64 => "cr".to_string(),
-                    _ => format!("up:{}", if rng.chance(3, 4) { format!("t{}", ntok.saturating_sub(1 + rng.below(2))) } else { tokref(rng, ntok) }),
+                    _ => format!("up:{}{}", if rng.chance(3, 4) { format!("t{}", ntok.saturating_sub(1 + rng.below(2))) } else { tokref(rng, ntok) }, if rng.chance(1, 8) { ":v" } else { "" }),
                 };
                 ntok += 1;
                 format!("put {k} {mode} {} {}", size(rng), rng.below(50))
@@ -170,8 +170,8 @@ fn gen_case(rng: &mut Rng, big_ok: bool) -> Vec<String> {
             }
             98 => {
                 // one delete_stream over several locations (missing keys and repeats included)
-                let n = 1 + rng.usize(4);
-                format!("dels {}", (0..n).map(|_| rng.pick(&keys).to_string()).collect::<Vec<_>>().join(","))
+                let n = rng.usize(5);
+                if n == 0 { "dels -".to_string() } else { format!("dels {}", (0..n).map(|_| rng.pick(&keys).to_string()).collect::<Vec<_>>().join(",")) }
             }
             _ => "reopen".to_string(),
         };
@@ -404,8 +404,8 @@ async fn run_case(ops: &[String]) -> Result<CaseOut, String> {
         if let ["dels", ks] = w.as_slice() {
             let mut seen: BTreeSet<&str> = BTreeSet::new();
             for k in ks.split(',').filter(|k| *k != "-") {
-                let absent = match key_path(k) { Some(p) => rf.store.head(&p).await.is_err(), None => true };
-                dels_missing.push(absent || !seen.insert(k));
+                // (the wrapper's own bookkeeping: after a state-diverging known shape the reference holds other keys)
+                dels_missing.push(!latest.contains_key(k) || !seen.insert(k));
             }
             if dels_missing.iter().any(|m| *m) {
                 out.hits.push("known-shape:delete-missing-key".into());
@@ -478,7 +478,7 @@ async fn run_case(ops: &[String]) -> Result<CaseOut, String> {
             let inner = |l: &str| l.strip_prefix("ok [").and_then(|x| x.strip_suffix(']')).map(|x| x.split(',').filter(|e| !e.is_empty()).map(|e| e.to_string()).collect::<Vec<_>>()).unwrap_or_default();
             let (ea, eb) = (inner(&a.line), inner(&b.line));
             let expected: Vec<String> = dels_missing.iter().map(|m| if *m { "err:notfound".to_string() } else { "ok".to_string() }).collect();
-            if ea != expected || eb.iter().any(|e| e != "ok") || eb.len() != expected.len() {
+            if ea != expected || (i < out.noref_from && (eb.iter().any(|e| e != "ok") || eb.len() != expected.len())) {
                 out.failures.push(Failure { key: "dels-unexpected-answer".into(), what: format!("{op}: delete_stream answers per location, in input order: ok for a present key, NotFound for a missing one (known shape)"), expected: format!("ok [{}]", expected.join(",")), observed: a.line.clone(), at: i });
             }
             for k in ks.split(',').filter(|k| *k != "-") {
@@ -696,6 +696,24 @@ fn main() {
     } else {
         if let Some(dir) = &args.corpus {
             cases.extend(read_corpus(dir));
+        }
+        // the precondition decision table, exhaustively: 3^4 combinations of (absent | satisfied | violated)
+        // for if_match / if_none_match / if_unmodified_since / if_modified_since, as get / head / ranged get
+        for fl in ["reset m", "reset e 7"] {
+            let mut ops = vec![fl.to_string(), "put 0 ow 9 1".to_string(), "put 1 ow 4 2".to_string()];
+            let mut row = 0;
+            for im in ["", " im=t0", " im=x1"] {
+                for inm in ["", " inm=x1", " inm=t0"] {
+                    for ius in ["", " ius=0:0", " ius=0:-1"] {
+                        for ims in ["", " ims=0:-1", " ims=0:0"] {
+                            let tail = ["", " head", " r=b:1:5"][row % 3];
+                            ops.push(format!("get 0{im}{inm}{ims}{ius}{tail}"));
+                            row += 1;
+                        }
+                    }
+                }
+            }
+            cases.push((format!("gen-table-{}", &fl[6..7]), ops));
         }
         let n = args.budget(1600, 180000);
         for i in 0..n {
